@@ -400,6 +400,14 @@ func (hash *SexpHash) HashSet(key Sexp, val Sexp) error {
 		// could be stored, but never found, printed or deleted again.
 		return fmt.Errorf("HashSet: the dotted symbol '%s' names a path, it cannot be a key", sym.name)
 	}
+	if arr, isArr := key.(*SexpArray); isArr {
+		// an array that contains itself (see aset) does not compare equal to
+		// itself: like the dotted symbol it could be stored, but never found,
+		// printed or deleted again.
+		if res, err := hash.Env.Compare(arr, arr); err != nil || res != 0 {
+			return fmt.Errorf("HashSet: an array that contains itself cannot be a key")
+		}
+	}
 
 	err := hash.TypeCheckField(key, val)
 	if err != nil {
